@@ -34,6 +34,36 @@ func TestC11(t *testing.T) {
 	harness.Main(t, harness.Check{Prop: "C11", Exec: exec, ShrinkBudget: 200})
 }
 
+// runner runs the artefact under test (Program.Run or Template.Run).
+type runner func(opts *scriggo.RunOptions) error
+
+// Non-terminating and terminating template bodies (the statement covers
+// programs and templates): loops and blocking operations in the main body,
+// inside macros, and in goroutines started by the template.
+var ntTemplates = []string{
+	`{% for %}{% end %}`,
+	`a{% for i := 0; ; i++ %}{{ i }}{% end %}`,
+	`{% macro M %}{% for %}x{% end %}{% end %}{{ M() }}`,
+	`{% macro R(n int) %}{{ R(n+1) }}{% end %}{{ R(0) }}`,
+	`{% var c = make(chan int) %}{% c <- 1 %}`,
+	`{% var c = make(chan int) %}{{ <-c }}`,
+	`{% var c = make(chan int) %}{% var d = make(chan string) %}{% select %}{% case <-c %}x{% case d <- "s" %}y{% end %}`,
+	`{% var c = make(chan int) %}{% for v := range c %}{{ v }}{% end %}`,
+	`{% select %}{% end %}`,
+	`{% var c = make(chan int) %}{% go func() { c <- 1 }() %}{{ <-c }}{% for %}{% end %}`,
+	`{% var c = make(chan int) %}{% go func() { for { } }() %}{{ <-c }}`,
+	`{% macro M(c chan int) %}{{ <-c }}{% end %}{% var c = make(chan int) %}<p>{{ M(c) }}</p>`,
+	`{% var c = make(chan int) %}{% for %}{% select %}{% case <-c %}{% default %}{% end %}{% end %}`,
+}
+
+var termTemplates = []string{
+	`hello {{ 1 + 2 }}`,
+	`{% for i := 0; i < 20; i++ %}{{ i }},{% end %}`,
+	`{% var c = make(chan int, 1) %}{% c <- 5 %}{{ <-c }}`,
+	`{% var c = make(chan int) %}{% go func() { for i := 0; i < 3; i++ { c <- i }; close(c) }() %}{% for v := range c %}{{ v }}{% end %}`,
+	`{% macro M(n int) %}{% if n > 0 %}{{ M(n-1) }}{% end %}{{ n }}{% end %}{{ M(5) }}`,
+}
+
 type printer struct{ b strings.Builder }
 
 func (p *printer) print(v any) {
@@ -76,7 +106,7 @@ type result struct {
 	steps     int
 }
 
-func simulate(r *harness.Run, prog *scriggo.Program, pl plan, logIt bool) result {
+func simulate(r *harness.Run, prog runner, pl plan, logIt bool) result {
 	var res result
 	sched.Bubble(theT, func() {
 		s := sched.New(r.S)
@@ -118,7 +148,7 @@ func simulate(r *harness.Run, prog *scriggo.Program, pl plan, logIt bool) result
 		s.RegisterContext(ctx)
 		var mainG *sched.G
 		mainG = s.Spawn("0", func() {
-			res.panicked, res.pval, res.stack = harness.Guard(func() { res.err = prog.Run(opts) })
+			res.panicked, res.pval, res.stack = harness.Guard(func() { res.err = prog(opts) })
 			res.returned = true
 		})
 		doFire := func(s *sched.Sim) {
@@ -219,16 +249,51 @@ func simulate(r *harness.Run, prog *scriggo.Program, pl plan, logIt bool) result
 func exec(r *harness.Run) *harness.Violation {
 	s := r.S
 	nonTerm := s.Chance(7, 10)
-	p := conc.Gen(s, conc.Options{Feature: r.Feature, NonTerminating: nonTerm, MaxBlocks: 2})
-	r.Artefact = map[string]any{"main.go": p.Files["main.go"], "blocks": p.Blocks, "non_terminating": nonTerm}
-	if r.ShowOnly() {
-		return nil
-	}
-	prog, err := scriggo.Build(scriggo.Files{"main.go": []byte(p.Files["main.go"])}, &scriggo.BuildOptions{AllowGoStmt: true})
-	if err != nil {
-		r.Count("skipped.build_error", 1)
-		r.Logf("scriggo build error: %v", err)
-		return nil
+	var prog runner
+	var p *conc.Prog
+	var tmplOut *strings.Builder
+	if r.Feature("template", 1, 4) {
+		// A template: output goes to a writer, so the reference output of a
+		// terminating template is what it wrote.
+		var src string
+		if nonTerm {
+			src = ntTemplates[s.N(len(ntTemplates))]
+		} else {
+			src = termTemplates[s.N(len(termTemplates))]
+		}
+		p = &conc.Prog{Blocks: []string{"template"}}
+		r.Artefact = map[string]any{"index.html": src, "non_terminating": nonTerm}
+		if r.ShowOnly() {
+			return nil
+		}
+		t, err := scriggo.BuildTemplate(scriggo.Files{"index.html": []byte(src)}, "index.html", &scriggo.BuildOptions{AllowGoStmt: true})
+		if err != nil {
+			harness.Fail("catalogue template does not build: %v\n%s", err, src)
+		}
+		tmplOut = &strings.Builder{}
+		prog = func(opts *scriggo.RunOptions) error {
+			tmplOut.Reset()
+			err := t.Run(tmplOut, nil, opts)
+			if opts.Print != nil {
+				opts.Print(tmplOut.String())
+			}
+			return err
+		}
+		r.Count("artefact.template", 1)
+	} else {
+		p = conc.Gen(s, conc.Options{Feature: r.Feature, NonTerminating: nonTerm, MaxBlocks: 2})
+		r.Artefact = map[string]any{"main.go": p.Files["main.go"], "blocks": p.Blocks, "non_terminating": nonTerm}
+		if r.ShowOnly() {
+			return nil
+		}
+		pr, err := scriggo.Build(scriggo.Files{"main.go": []byte(p.Files["main.go"])}, &scriggo.BuildOptions{AllowGoStmt: true})
+		if err != nil {
+			r.Count("skipped.build_error", 1)
+			r.Logf("scriggo build error: %v", err)
+			return nil
+		}
+		prog = pr.Run
+		r.Count("artefact.program", 1)
 	}
 	var ref string
 	if !nonTerm {
@@ -284,7 +349,7 @@ func exec(r *harness.Run) *harness.Violation {
 		if res.fired {
 			r.Count("fault.cancel-"+ctxNames[pl.ctxKind], 1)
 			r.Count("probe.cancel_landed_"+res.where, 1)
-			r.Distinct(fmt.Sprintf("%s|%s|%s", p.Files["main.go"], res.trace, res.where))
+			r.Distinct(fmt.Sprintf("%v|%s|%s", r.Artefact, res.trace, res.where))
 		}
 		cancelledBeforeReturn := res.fired && res.where != "main-returned"
 		switch {
